@@ -293,6 +293,14 @@ pub fn parse_proj(definition: &str) -> Result<String, Error> {
     for (step_index, step) in steps.iter().enumerate() {
         let mut elements: Vec<_> = step.split_whitespace().map(|x| x.to_string()).collect();
 
+        // An init clause is not supported, wherever in the step it is placed (the loop
+        // below stops at the "proj=..." element, so it would not see one placed after it)
+        if elements.iter().any(|element| element.starts_with("init=")) {
+            return Err(Error::Unsupported(
+                "parse_proj does not support PROJ init clauses: ".to_string() + step,
+            ));
+        }
+
         // Move the "proj=..." element to the front of the collection, stripped for "proj="
         // and handle the pipeline globals, if any
         for (i, element) in elements.iter().enumerate() {
